@@ -396,15 +396,20 @@ func init() {
 		ID: "C17",
 		Explanation: "Decides a necessary condition of C17's 'never kills the process with a runtime panic' clause: (PANIC-SINK) for every Go function registered as an Elvish command (discovered from the registration maps), every special-form operand, every value read from the input stream and every value produced by evaluating an expression, no such script-controlled value reaches a panic-prone operation - slice/array/string index or slice bound, make size, integer division, signed shift, non-comma-ok type assertion, or a library call that panics on argument values (strings.Repeat, rand.Intn, strconv.FormatInt base, big.Rat.Inv/Quo/SetFrac, big.Int division family, flag.FlagSet.Var names, ...) - unless dominating checks establish the facts that make it safe (both bounds for an index, non-negative and bounded for a size, non-zero for a divisor, range for a base, ...). Facts flow interprocedurally from call sites into parameters and captured variables. (VARIADIC-INDEX) a constant index into the variadic argument list of a command needs a dominating len(args) check. Sinks that are safe for a reason outside the function are listed in an audit table, one reason each, keyed by construct and by the exact facts that could not be established. Nil dereferences, untainted indices, unbounded resource use and the no-deadlock clause are not decided.",
 		NotCovered:  "nil dereferences; panics not driven by a script-controlled scalar; resource exhaustion (huge exponents, unbounded allocation through library calls); the 'never hangs' clause; index arithmetic inside pkg/eval/vals is audited, not proven (C13)",
-		Rules:       []string{"PANIC-SINK: taint from script-controlled values to panic-prone operations, discharged by dominating guard facts (interprocedural)", "VARIADIC-INDEX: constant index into a command's variadic arguments needs a len check"},
+		Rules:       []string{"PANIC-SINK: taint from script-controlled values to panic-prone operations, discharged by dominating guard facts (interprocedural)", "VARIADIC-INDEX: constant index into a command's variadic arguments needs a len check", "GLOBAL-MAP-WRITE: package-level maps of pkg/eval and pkg/mods are written after initialisation only under a write lock (unsynchronised map writes abort the process)", "RLOCK-WRITE: nothing guarded by an RWMutex is written under its read lock"},
 		Run: func(p *core.Program, r *core.Report) {
 			e := newPanicEngine(p)
 			e.run(r, "PANIC-SINK", nil)
 			e.runVariadicIndex(r, "VARIADIC-INDEX")
+			runGlobalMapWrite(p, r)
+			runRLockWrite(p, r, "RLOCK-WRITE")
 		},
 		MinCounts: map[string]int{"PANIC-SINK": 15, "VARIADIC-INDEX": 2},
 		Trusted:   append([]string{"the table of argument-panicking library functions and the audit table in sa/internal/rules/c17.go"}, trustedBase...),
 		Controls: []core.Control{
+			{Name: "unlocked-pattern-cache", Rule: "GLOBAL-MAP-WRITE", File: "pkg/mods/re/re.go", Old: "func makePattern(p string, posix, longest bool) (*regexp.Regexp, error) {\n\tpattern, err := compile(p, posix)\n\tif err != nil {\n\t\treturn nil, err\n\t}\n", New: "var patternCache = map[string]*regexp.Regexp{}\n\nfunc makePattern(p string, posix, longest bool) (*regexp.Regexp, error) {\n\tif c, ok := patternCache[p]; ok && !posix && !longest {\n\t\treturn c, nil\n\t}\n\tpattern, err := compile(p, posix)\n\tif err != nil {\n\t\treturn nil, err\n\t}\n\tif !posix && !longest {\n\t\tpatternCache[p] = pattern\n\t}\n", Fire: true, Want: "patternCache"},
+			{Name: "read-locked-pattern-cache", Rule: "RLOCK-WRITE", File: "pkg/mods/re/re.go", Old: "func makePattern(p string, posix, longest bool) (*regexp.Regexp, error) {\n\tpattern, err := compile(p, posix)\n\tif err != nil {\n\t\treturn nil, err\n\t}\n", New: "var patternCache = map[string]*regexp.Regexp{}\nvar patternCacheMutex sync.RWMutex\n\nfunc makePattern(p string, posix, longest bool) (*regexp.Regexp, error) {\n\tpatternCacheMutex.RLock()\n\tdefer patternCacheMutex.RUnlock()\n\tif c, ok := patternCache[p]; ok && !posix && !longest {\n\t\treturn c, nil\n\t}\n\tpattern, err := compile(p, posix)\n\tif err != nil {\n\t\treturn nil, err\n\t}\n\tif !posix && !longest {\n\t\tpatternCache[p] = pattern\n\t}\n", Edits: [][2]string{{"\t\"strings\"\n", "\t\"strings\"\n\t\"sync\"\n"}}, Fire: true, Want: "patternCache"},
+			{Name: "benign-write-locked-pattern-cache", Rule: "GLOBAL-MAP-WRITE", File: "pkg/mods/re/re.go", Old: "func makePattern(p string, posix, longest bool) (*regexp.Regexp, error) {\n\tpattern, err := compile(p, posix)\n\tif err != nil {\n\t\treturn nil, err\n\t}\n", New: "var patternCache = map[string]*regexp.Regexp{}\nvar patternCacheMutex sync.Mutex\n\nfunc makePattern(p string, posix, longest bool) (*regexp.Regexp, error) {\n\tpatternCacheMutex.Lock()\n\tdefer patternCacheMutex.Unlock()\n\tif c, ok := patternCache[p]; ok && !posix && !longest {\n\t\treturn c, nil\n\t}\n\tpattern, err := compile(p, posix)\n\tif err != nil {\n\t\treturn nil, err\n\t}\n\tif !posix && !longest {\n\t\tpatternCache[p] = pattern\n\t}\n", Edits: [][2]string{{"\t\"strings\"\n", "\t\"strings\"\n\t\"sync\"\n"}}, Fire: false},
 			{Name: "revert-fix-negative-fd", Rule: "PANIC-SINK", File: "pkg/eval/compile_effect.go", Old: "if dst < 0 || dst > maxRedirFD {", New: "if dst > maxRedirFD {", Fire: true, Want: "growAccess", Quick: true},
 			{Name: "revert-fix-huge-fd", Rule: "PANIC-SINK", File: "pkg/eval/compile_effect.go", Old: "if dst < 0 || dst > maxRedirFD {", New: "if dst < 0 {", Fire: true, Want: "growAccess make"},
 			{Name: "revert-fix-src-fd", Rule: "PANIC-SINK", File: "pkg/eval/compile_effect.go", Old: "case src < 0 || src >= len(fm.ports) || fm.ports[src] == nil:", New: "case src >= len(fm.ports) || fm.ports[src] == nil:", Fire: true, Want: "redirOp"},
